@@ -1,7 +1,8 @@
 (* C10 — bidirected_to_unobserved_confounder: the canonical DAG of an ADMG.  All four theorems are unbounded
    (every graph, every naming function that meets the freshness obligation [fresh_ok]). *)
 From Coq Require Import List.
-From PG Require Import Base.ListSet Graph.MGraph Graph.MSep C10.Model C10.Spec C10.ProofsSep C10.Proofs.
+From PG Require Import Base.ListSet Graph.MGraph Graph.MSep C10.Model C10.Spec C10.ProofsSep C10.Proofs C10.Refuted.
+Import ListNotations.
 
 (* nodes kept, directed edges kept, only directed edges, one new parentless node per bidirected edge whose only
    children are the two endpoints, nothing else *)
@@ -30,3 +31,13 @@ Print Assumptions canon_preserves_sep_dec.
 Theorem fresh_above_meets_obligation : forall g, fresh_ok g (fresh_above g).
 Proof. exact fresh_above_ok. Qed.
 Print Assumptions fresh_above_meets_obligation.
+
+(* without the freshness obligation (names "U<i>" clashing with caller nodes, as in the unpatched code) both clauses fail *)
+Theorem canon_without_freshness_not_a_dag : exists g, is_admg g /\ ~ fresh_ok g colliding /\ acyclicb (canon_model g colliding) = false.
+Proof. exact canon_without_freshness_not_a_dag_refuted. Qed.
+Print Assumptions canon_without_freshness_not_a_dag.
+
+Theorem canon_without_freshness_sep : exists g, is_admg g /\ ~ fresh_ok g colliding /\
+  msep_dec g [0] [2] [] = true /\ msep_dec (canon_model g colliding) [0] [2] [] = false.
+Proof. exact canon_without_freshness_sep_refuted. Qed.
+Print Assumptions canon_without_freshness_sep.
